@@ -25,7 +25,7 @@ def loader_obligations(prop):
         obs.append(dict(id="%s.deser.%s" % (prop, nm), prop=prop, harness=LOADER, entry="h_deser", annotate=LANN,
                         tier="thorough" if nm in ("functions", "strings") else "quick",   # functions: > 25 min; strings: needs --unwind 6 for the DFCC library loops and then > 10 GB
                         defines={"VERIF_KIND": k}, enforce="nvm_deserialize", replace=LREPL, loops=True, unwind=6 if nm == "strings" else 5,
-                        object_bits=10, strength="X", timeout=1500 if nm not in ("functions", "strings") else 5400, mem_gb=10 if nm != "strings" else 24, weight=100,
+                        object_bits=10, strength="X", timeout=1500 if nm not in ("functions", "strings") else 5400, mem_gb=10 if nm != "strings" else 44, weight=100,
                         functions=["nvm_deserialize", "le_read_u32", "le_read_u16", "nvm_validate_header"],
                         must_have=[r"nvm_deserialize\.postcondition", r"loop_invariant_step", r"decreases",
                                    r"nvm_crc32\.precondition"], min_checks=500,
@@ -37,7 +37,7 @@ def loader_obligations(prop):
     # bounded stand-in, never counted as proved
     obs.append(dict(id="%s.deser.imports.bounded" % prop, prop=prop, harness=LOADER, entry="h_deser", tier="thorough",
                     defines={"VERIF_KIND": 8, "VERIF_MAX_SIZE": 84}, enforce="nvm_deserialize", replace=LREPL, unwind=8,
-                    object_bits=10, strength="B(file size <= 84 bytes: <= 3 import records, <= 4 directory slots)", timeout=1500,
+                    object_bits=10, strength="B(file size <= 84 bytes: <= 3 import records, <= 4 directory slots)", timeout=3600,
                     mem_gb=10, weight=50, functions=["nvm_deserialize"], must_have=[r"nvm_deserialize\.postcondition"],
                     min_checks=300, witness={"replayer": "loader", "override": {}}))
     return obs
